@@ -2,9 +2,8 @@ CONSTANTS
   Nodes = {0, 1, 2}
   AP = {"p", "q"}
   MaxObjs = 3
-  Mutators = FALSE
+  Mutators = TRUE
   Depth = 8
 SPECIFICATION Spec
 INVARIANT Emit
-INVARIANT KripkeInv
 CHECK_DEADLOCK FALSE
